@@ -252,6 +252,39 @@ func restCandidates(t *target, rawURL, conn string) []string {
 	return out
 }
 
+// restResolvedDeterministically: several api patterns match the url; consumer and provider agree only if the real
+// matcher's choice does not depend on Go's map iteration order. The matcher is called 256 times on the table
+// restricted to the matching entries (a 2-3 entry map: an order-dependent choice flips with probability >= 1/8 per
+// call, so a miss has probability < 1e-14); this is the only repetition-based sub-oracle of the check.
+func restResolvedDeterministically(t *target, rawURL, conn string) bool {
+	u, err := url.Parse(rawURL)
+	if err != nil {
+		return true
+	}
+	sub := map[chainlib.ApiKey]chainlib.ApiContainer{}
+	for _, m := range t.restSingles {
+		if _, ok := chainlib.VerifC38MatchSpecApiByName(u.Path, conn, m); ok {
+			for k, v := range m {
+				sub[k] = v
+			}
+		}
+	}
+	first := ""
+	for i := 0; i < 256; i++ {
+		ac, ok := chainlib.VerifC38MatchSpecApiByName(u.Path, conn, sub)
+		name := "<none>"
+		if ok {
+			name = ac.VerifC38Api().Name
+		}
+		if i == 0 {
+			first = name
+		} else if name != first {
+			return false
+		}
+	}
+	return true
+}
+
 func bgctx() context.Context { return context.Background() }
 
 // errors are still formatted by the code under test, only the output is dropped
@@ -498,7 +531,7 @@ func evaluate(t *target, in input, modes []cmode, s *stats) {
 		s.perTargetOK[t.id]++
 		ambiguous := false
 		if t.kind == spectypes.APIInterfaceRest && li == 0 {
-			if cands := restCandidates(t, in.url, in.conn); len(cands) > 1 {
+			if cands := restCandidates(t, in.url, in.conn); len(cands) > 1 && !restResolvedDeterministically(t, in.url, in.conn) {
 				ambiguous = true
 				s.restAmbiguous[strings.Join(cands, " | ")] = struct{}{}
 				s.violate(t, "disagree:rest:api:ambiguous-pattern-match", fmt.Sprintf("REST url %q (%s) matches %d api patterns of the spec: %s; matchSpecApiByName returns whichever entry its map iteration visits first, so the consumer and the provider resolve the same request to different APIs", in.url, in.conn, len(cands), strings.Join(cands, " | ")), in, map[string]interface{}{"candidates": cands})
